@@ -116,7 +116,7 @@ def check_after(sched, want_members, want_req, want_up, info):
         fail("C18: check_cycles() is False after %s" % info["ops"][-1], info)
 
 
-def surgery_harness(name, n, nops, ops, perm_mode="id", maxk=2, variants=True):
+def surgery_harness(name, n, nops, ops, perm_mode="id", maxk=2, variants=True, warm=False):
     def fn(api):
         jobs = make_jobs(api, n, perm_mode)
         for i, a in enumerate(jobs):
@@ -127,6 +127,11 @@ def surgery_harness(name, n, nops, ops, perm_mode="id", maxk=2, variants=True):
         sched = GPure(*jobs) if pure else GSched("S", 0, *jobs)
         info = {"requires": {str(j): sorted(map(str, j.required)) for j in jobs}, "ops": []}
         members = list(jobs)
+        if warm and api.flag("queries_first"):
+            # ordinary read-only use before the surgery (computes the cached reverse links)
+            info["ops"].append("queries")
+            sched.successors_downstream(*jobs[:1])
+            list(sched.exit_jobs())
         for k in range(nops):
             members = apply_op(api, sched, members, str(k), info, ops, maxk, variants)
         api.sample(info)
@@ -141,7 +146,9 @@ def surgery_harness(name, n, nops, ops, perm_mode="id", maxk=2, variants=True):
 def harnesses(tier):
     if tier == "quick":
         return [surgery_harness("dag4-one-op", 4, 1, ["bypass", "keep_only", "between"], "id", 2, False),
-                surgery_harness("dag3-two-ops", 3, 2, ["bypass", "keep_only", "between"], "id", 1, False)]
+                surgery_harness("dag3-two-ops", 3, 2, ["bypass", "keep_only", "between"], "id", 1, False),
+                surgery_harness("dag4-queries-then-two-bypasses", 4, 2, ["bypass"], "id", 1, False, warm=True)]
     return [surgery_harness("dag5-bypass", 5, 1, ["bypass"], "two"),
             surgery_harness("dag5-keep-only-between", 5, 1, ["keep_only", "between"]),
-            surgery_harness("dag4-two-ops", 4, 2, ["bypass", "between"])]
+            surgery_harness("dag4-two-ops", 4, 2, ["bypass", "between"], warm=True),
+            surgery_harness("dag5-queries-then-three-bypasses", 5, 3, ["bypass"], "id", 1, False, warm=True)]
